@@ -140,6 +140,18 @@ func c10Echo(v string, d *rules.DNSRewrite) string {
 			if n, ok := num(fields[0]); ok && (x.Priority != n || x.Target != fields[1]) {
 				return fmt.Sprintf("HTTPS/SVCB value {%d %q} for the written %q", x.Priority, x.Target, val)
 			}
+			// every written parameter is reproduced: key=value with the value as written
+			written := map[string]bool{}
+			for _, f := range fields[2:] {
+				k, _, _ := strings.Cut(f, "=")
+				written[k] = true
+				if v, ok := x.Params[k]; !ok || k+"="+v != f {
+					return fmt.Sprintf("HTTPS/SVCB parameter %q read as %q=%q", f, k, v)
+				}
+			}
+			if len(written) != len(x.Params) {
+				return fmt.Sprintf("HTTPS/SVCB value has %d parameters for the %d written in %q", len(x.Params), len(written), val)
+			}
 		}
 	}
 	return ""
@@ -272,6 +284,14 @@ func c10Check(c *Ctx, v string) (accepted bool) {
 	if why := c10Shape(r1.DNSRewrite); why != "" {
 		c.Run.Violate(ev.Violation{Pred: "published-shape", Sig: map[string]any{"value": v}, What: fmt.Sprintf("%q accepted with rewrite %+v: %s", text, *r1.DNSRewrite, why), Replay: map[string]any{"value": v}})
 	}
+	if d := r1.DNSRewrite; d.NewCNAME != "" {
+		for i := 0; i < len(d.NewCNAME); i++ {
+			if ch := d.NewCNAME[i]; !(ch >= 'a' && ch <= 'z' || ch >= 'A' && ch <= 'Z' || ch >= '0' && ch <= '9' || ch == '-' || ch == '.') {
+				c.Run.Violate(ev.Violation{Pred: "published-shape", Sig: map[string]any{"value": v}, What: fmt.Sprintf("%q accepted as a new CNAME %q, which is not a host name (byte 0x%02x)", text, d.NewCNAME, ch), Replay: map[string]any{"value": v}})
+				break
+			}
+		}
+	}
 	if why := c10Echo(v, r1.DNSRewrite); why != "" {
 		c.Run.Violate(ev.Violation{Pred: "value-equals-written-value", Sig: map[string]any{"value": v}, What: fmt.Sprintf("%q accepted with %s", text, why), Replay: map[string]any{"value": v}})
 	}
@@ -345,7 +365,7 @@ func init() {
 		// structured product: rcode ; rrtype ; value
 		rcodes := []string{"NOERROR", "noerror", "SERVFAIL", "NXDOMAIN", "REFUSED", "BADCODE", ""}
 		rrtypes := []string{"A", "AAAA", "CNAME", "MX", "PTR", "TXT", "HTTPS", "SVCB", "SRV", "NS", "none", "reserved", "XYZ", "", "a", "ptr", "https"}
-		vtoks := []string{"", "0", "10", "65535", "65536", "-1", "1.2.3.4", "::1", "::ffff:1.2.3.4", "example.org", "example.org.", ".", "a-", "-a", "alpn=h2", "k=v=w", "alpn=", "k=\"", "k=\"v\"", "010", "0x10", "caf\u00e9", "1.2.3.\uff14", "hello world", strings.Repeat("x", 64), "example.org..", "a..", ".."}
+		vtoks := []string{"", "0", "10", "65535", "65536", "-1", "1.2.3.4", "::1", "::ffff:1.2.3.4", "example.org", "example.org.", ".", "a-", "-a", "alpn=h2", "k=v=w", "alpn=", "k=\"", "k=\"v\"", "010", "0x10", "caf\u00e9", "1.2.3.\uff14", "a\x10c.example", "a\x19c.example.", "dohpath=/q?v=1", strings.Repeat("t", 300), "hello world", strings.Repeat("x", 64), "example.org..", "a..", ".."}
 		vn := 3
 		if c.Thorough() {
 			vn = 4
